@@ -296,6 +296,22 @@ Proof.
   - reflexivity.
   - cbn [map app sequence_o]. rewrite strip_cr_app, IH. reflexivity.
 Qed.
+Lemma crlf_parse_block : forall sl hls, Forall no_lf (sl :: hls) -> forallb nonempty (sl :: hls) = true ->
+  crlf_parse (block (sl :: hls)) = Some (sl, hls).
+Proof.
+  intros sl hls Hn H. unfold crlf_parse.
+  remember (sl :: hls) as L eqn:EL.
+  rewrite (split_on_block _ Hn).
+  rewrite rev_app_distr. change (rev [[13]; []]) with ([[]; [13]] : list text). cbn [app].
+  cbn [rev]. rewrite rev_involutive.
+  rewrite sequence_strip. rewrite rev_app_distr. cbn [rev app]. rewrite rev_involutive.
+  subst L. rewrite H. reflexivity.
+Qed.
+Lemma clean_nonempty : forall ls, forallb clean_line ls = true -> forallb nonempty ls = true.
+Proof.
+  intros ls H. apply forallb_forall. intros l Hl. eapply forallb_forall in H; eauto.
+  destruct l; [discriminate|reflexivity].
+Qed.
 Lemma strict_parse_block : forall sl hls, forallb clean_line (sl :: hls) = true ->
   strict_parse (block (sl :: hls)) = Some (sl, hls).
 Proof.
@@ -303,10 +319,10 @@ Proof.
   assert (Hn : Forall no_lf (sl :: hls)).
   { apply Forall_forall. intros l Hl. eapply forallb_forall in H; eauto.
     unfold clean_line in H. destruct l; [discriminate|]. apply valid_no_lf. exact H. }
-  remember (sl :: hls) as L eqn:EL.
-  rewrite (split_on_block _ Hn).
-  rewrite rev_app_distr. change (rev [[13]; []]) with ([[]; [13]] : list text). cbn [app].
-  cbn [rev]. rewrite rev_involutive.
-  rewrite sequence_strip. rewrite rev_app_distr. cbn [rev app]. rewrite rev_involutive.
-  subst L. rewrite H. reflexivity.
+  rewrite (crlf_parse_block _ _ Hn (clean_nonempty _ H)). rewrite H. reflexivity.
+Qed.
+Lemma strict_parse_clean : forall w sl hls, strict_parse w = Some (sl, hls) -> forallb clean_line (sl :: hls) = true.
+Proof.
+  intros w sl hls H. unfold strict_parse in H. destruct (crlf_parse w) as [[a b]|]; [|discriminate].
+  destruct (forallb clean_line (a :: b)) eqn:C; [|discriminate]. inversion H; subst. exact C.
 Qed.
